@@ -6,9 +6,9 @@ class C28(vlib.Spec):
     model_vo = ["theories/Hydro/ModelFlows.vo"]
     props_vo = "theories/Props/C28.vo"
     theorems = ["C28_partition_independent_modelled_ir", "C28_final_is_denotation_modelled_ir",
-                "C28_join_delta_tickinv", "C28_holds_b_correct"]
+                "C28_join_delta_tickinv", "C28_generator_tickinv", "C28_holds_b_correct"]
     crate, group, binary = "h_hydro", "hydro", "h_hydro"
-    imports = "From HV Require Import Hydro.Model Hydro.ModelFlows."
+    imports = "From HV Require Import Hydro.Model Hydro.ModelTick Hydro.ModelFlows."
     level = "other"
     fn = "chk28"
     prop = "C28"
@@ -31,7 +31,18 @@ class C28(vlib.Spec):
     def flows(self):
         return [f for f, s in hydro.FLOWS.items() if self.prop in s["props"]]
 
+    def translate(self):
+        """translate the corpus flows from the builder's IR dump (once per run) and make the
+        generated definitions available to every Coq case file"""
+        if not hasattr(self, "tr"):
+            self.tr = hydro.Translated(self.ctx, self.bin, self.flows())
+            self.imports = self.imports + "\nOpen Scope N_scope.\n" + self.tr.defs + "\nClose Scope N_scope.\n"
+            for f in self.tr.failed:
+                self.ctx.log("IR-TRANSLATION:", f, self.tr.report[f].get("why"))
+        return self.tr
+
     def gen(self, rng, tier, n):
+        self.translate()
         fl = self.flows()
         return hydro.corpus_cases(self.prop) + hydro.emit_cases(fl) + hydro.gen_partition_cases(rng, tier, fl)
 
@@ -39,9 +50,17 @@ class C28(vlib.Spec):
         return 0
 
     def to_coq(self, case, res):
+        tr = self.translate()
+        flow = case["flow"]
         if case.get("k") == "syntax":
-            return hydro.emit_term(case["flow"], res)
-        return hydro.case_term(self.fn, case, res)
+            if flow in tr.failed:
+                return 1
+            return hydro.emit_term_named(flow, tr.name(flow), res,
+                                         extras=tr.report.get(flow, {}).get("shared_extra", ()))
+        if hydro.broken(res) or len(res["ticks"]) != len(case["ticks"]):
+            return 3
+        term = "(%s %s %s %s)" % (self.fn, tr.name(flow), hydro.g_ticks(case), hydro.g_impl(res))
+        return tr.wrap(flow, case, term)
 
     def shrink(self, case):
         return hydro.shrink_ticks(case)
@@ -63,6 +82,7 @@ class C28(vlib.Spec):
                             "The IR covers %d of %d HydroNode variants, so this is not a proof of the full statement."
                             % (len(self.flows()), cov["modelled"], cov["hydro_node_variants"])),
             "ir_coverage": cov,
+            "ir_translation": self.tr.summary() if hasattr(self, "tr") else {},
             "programs": len(self.flows()),
         }
 
